@@ -177,6 +177,23 @@ func runC05(c *Ctx, r *Report, tier string) {
 	for _, in := range c.instrs(sd, c.isCallTo("(*Option).Set")) {
 		c.reqRule(r, "FLAGS", sd, in, "setDefault applies only when not prevented", litHas(false, pdLit), "¬preventDefault", nil)
 	}
+	// an occurrence that parseOption accepts outranks every default, whichever branch handled it (an
+	// optional-argument option given bare is emptied, not Set): every nil-error return passes Set or the store
+	if po := c.mustFn(r, "(*Parser).parseOption"); po != nil {
+		mark := orPred(c.isCallTo("(*Option).Set"), func(in ssa.Instruction) bool {
+			st, ok := in.(*ssa.Store)
+			return ok && c.isStoreTo(pd)(in) && c.term(st.Val) == "true"
+		})
+		for _, ret := range returnsOf(po) {
+			if mi, ok := ret.Results[0].(*ssa.MakeInterface); ok {
+				if call, ok := mi.X.(*ssa.Call); ok && c.neverNilError(call.Common().StaticCallee(), 0) {
+					continue
+				}
+			}
+			path, ok := c.mustPassOrErr(po, ret, orPred(mark, c.isCallTo("newErrorf", "newError")))
+			r.Check(ok, "FLAGS", c.fname(po), "an accepted occurrence prevents the defaults", c.ipos(ret), "every nil-error path passes Option.Set or a store preventDefault = true", "an occurrence is accepted without preventing the defaults, so the default tag or the environment overwrites it afterwards: "+pathStr(path))
+		}
+	}
 	for _, s := range c.storesTo(crbs) {
 		fn := c.fname(s.Fn)
 		v := c.term(s.Store.Val)
@@ -348,6 +365,43 @@ func runC05(c *Ctx, r *Report, tier string) {
 		if fn == nil {
 			continue
 		}
+		// the key is computed from the tree as it is now, on every call: nothing is remembered in the option, the
+		// groups or a package variable (the namespaces and the delimiter may be changed between two parses)
+		var memo []string
+		for _, b := range c.blocks(fn) {
+			for _, in := range b.Instrs {
+				st, ok := in.(*ssa.Store)
+				if !ok {
+					continue
+				}
+				root := st.Addr
+				for {
+					switch x := root.(type) {
+					case *ssa.FieldAddr:
+						root = x.X
+						continue
+					case *ssa.IndexAddr:
+						root = x.X
+						continue
+					}
+					break
+				}
+				local := false
+				switch x := root.(type) {
+				case *ssa.Alloc:
+					local = x.Parent() == b.Parent()
+				case *ssa.MakeSlice, *ssa.MakeMap, *ssa.Phi, *ssa.Slice:
+					local = true // a collection built by the walk itself
+				case *ssa.Call:
+					_, local = x.Call.Value.(*ssa.Builtin) // append
+				}
+				if local {
+					continue
+				}
+				memo = append(memo, c.ipos(st)+": "+trunc(c.term(st.Addr), 60))
+			}
+		}
+		r.Check(len(memo) == 0, "ENVKEY", name, "the walk stores nothing outside its locals", c.pos(fn.Pos()), "no store to a field, element or package variable", "the result is remembered ("+strings.Join(memo, "; ")+"): a namespace or delimiter changed after the first call is ignored")
 		nWalk := 0
 		for _, b := range c.blocks(fn) {
 			for _, in := range b.Instrs {
